@@ -185,8 +185,12 @@ Section StatSig.
     induction es as [|e es IH]; intros names locs s s1 rs H.
     - cbn [local_eval] in H. injection H as <- <-. split; reflexivity.
     - cbn [local_eval] in H. inv_bind H. destruct a as [[s2 ofn] sub]. apply Hce in Hb. destruct Hb as [Hb Hofn].
-      destruct names as [|nm names]; [injection H as <- <-; split; [exact Hb|reflexivity]|].
-      destruct locs as [|l locs]; [injection H as <- <-; split; [exact Hb|reflexivity]|].
+      destruct names as [|nm names];
+        [inv_bind H; destruct a as [s3 rs0]; injection H as <- <-;
+         destruct (IH _ _ _ _ _ Hb0) as [E _]; split; [congruence|reflexivity]|].
+      destruct locs as [|l locs];
+        [inv_bind H; destruct a as [s3 rs0]; injection H as <- <-;
+         destruct (IH _ _ _ _ _ Hb0) as [E _]; split; [congruence|reflexivity]|].
       inv_bind H. destruct a as [s3 rs0]. injection H as <- <-.
       destruct (IH _ _ _ _ _ Hb0) as [E Hrs]. split; [congruence|].
       cbn [rs_match]. exists (ofn, sub), rs0. repeat split; auto.
